@@ -123,7 +123,9 @@ Bounded == Len(hist) <= DEPTH
 \* The view hides the buffer contents, the script and the description of the last step: every property below is an
 \* action property over (inst, inst', last'), and TLC evaluates action properties on every generated transition,
 \* so identifying states that differ only in these ghosts loses nothing and keeps the state graph small.
-View == <<[i \in Inst |-> [inst[i] EXCEPT !.buf = <<>>]], tbl>>
+\* The depth stays in the view whenever the bound can bind (Bounded reads hist): otherwise which histories are explored would
+\* depend on the order in which the workers reach view-equal states.  A model with DEPTH >= 50 is explored to its fixpoint.
+View == <<[i \in Inst |-> [inst[i] EXCEPT !.buf = <<>>]], tbl, IF DEPTH < 50 THEN Len(hist) ELSE 0>>
 
 \* print every explored transition as a replay script for the harness
 Emit == (last'.act \in EMITACTS) => PrintT("TR|" \o ToJson(hist'))
